@@ -59,6 +59,17 @@ def cases(tier, seed):
         recs.append(['named', 'late_hub_tree', n, int(rs.randint(1 << 30))])
     for i, g in enumerate(recs):
         out.append({'g': g, 'ws': seed * 100 + i, 'kind': 'und', 'lite': i > 400})
+    # long chains: depth of whatever structure a routine builds while merging or searching (a parent chain, a recursion)
+    # grows with the chain; numbering schemes that make the chain as deep as it gets
+    for k in (9, 12, 17, 25, 40) + ((80, 150) if thorough else ()):
+        out.append({'g': ['named', 'reversed_comb', k], 'ws': k, 'kind': 'und', 'lite': True})
+        out.append({'g': ['disjoint', ['named', 'reversed_comb', k], ['named', 'reversed_comb', max(3, k // 2)]], 'ws': k, 'kind': 'und', 'lite': True})
+    for n in (60, 300) + ((1200, 2600) if thorough else (1200,)):
+        for mode in ('natural', 'reversed', 'evenodd', 'outside_in', 'bitrev', 'random'):
+            if n > 300 and mode in ('evenodd', 'bitrev') and not thorough:
+                continue
+            g = ['named', 'numbered_path', n, mode, seed]
+            out.append({'g': g if n > 300 else ['disjoint', g, ['named', 'numbered_path', n // 2, mode, seed + 1]], 'ws': n, 'kind': 'und', 'lite': True, 'long': n > 300})
     # brute force over sparse labelled trees / forests: overlapping partial components that are not re-merged
     # need several late multi-way merges in an unlucky order (measured rate of a seeded fault: ~5e-4 per tree)
     for t in range(1600 if thorough else 160):
